@@ -186,7 +186,9 @@ def obligations(tier):
     PREP = [('Xt0', lambda q, t: [cirq.X(q[0]) ** t]), ('bell', lambda q, t: [cirq.H(q[0]), cirq.CNOT(q[0], q[1])])] + ([('H0', lambda q, t: [cirq.H(q[0])]), ('HH', lambda q, t: [cirq.H(q[0]), cirq.H(q[1])])] if tier != 'quick' else [])
     PREP_DOC = {'H0': lambda t: [(D.H(1.0), [0])], 'Xt0': lambda t: [(D.X(t), [0])], 'bell': lambda t: [(D.H(1.0), [0]), (D.CX(1.0), [0, 1])], 'HH': lambda t: [(D.H(1.0), [0]), (D.H(1.0), [1])]}
     MID = [('none', lambda q, u: [], lambda u: []), ('CNOT', lambda q, u: [cirq.CNOT(q[1], q[0])], lambda u: [(D.CX(1.0), [1, 0])])] + ([('CZt', lambda q, u: [cirq.CZ(q[0], q[1]) ** u], lambda u: [(D.CZ(u), [0, 1])])] if tier != 'quick' else [])
-    CH2 = [m for m in MENU if m[0] in (('amplitude_damp', 'depolarize', 'reset') if tier == 'quick' else tuple(x[0] for x in MENU))]
+    # second channel: the thorough tier uses 5 channels (the full menu incl. generalized_amplitude_damp as SECOND channel
+    # ran three obligations past 100 CPU-minutes each without finishing: products of several sqrt atoms)
+    CH2 = [m for m in MENU if m[0] in (('amplitude_damp', 'depolarize', 'reset') if tier == 'quick' else ('amplitude_damp', 'depolarize', 'reset', 'phase_damp', 'bit_flip'))]
     for name, npar, build, doc in [m for m in MENU if m[0] != 'generalized_amplitude_damp']:
         def body(cx, wrong=False, build=build, doc=doc, npar=npar, name=name):
             n = 2
